@@ -281,7 +281,7 @@ def cmp_authz(case, impl, model):
         return "skip"
     if model.get("amb"):
         return "skip"
-    for k in ("reload_differs", "reload_error", "sealed_differs", "seal_error"):
+    for k in ("reload_differs", "reload_error", "sealed_differs", "seal_error", "snapshot_differs"):
         if k in impl:
             return "%s: %s" % (k, json.dumps(impl[k])[:200])
     for k in AUTHZ_KEYS:
@@ -382,6 +382,9 @@ def cmp_chain(case, impl, model):
     if case.get("mutation") == "none":
         if impl.get("ids_in_memory") != impl.get("ids"):
             return "revocation identifiers changed by a serialization round trip"
+        for k in ("root_key_id", "block_count", "ext_keys"):
+            if k + "_in_memory" in impl and impl[k + "_in_memory"] != impl.get(k):
+                return "%s changed by a serialization round trip: %s in memory, %s after reload" % (k, json.dumps(impl[k + "_in_memory"]), json.dumps(impl.get(k)))
         if not impl.get("reserialized_identical"):
             return "re-serializing the deserialized token does not give identical bytes"
         if impl.get("wire_bytes") != model.get("wire_bytes"):
@@ -405,7 +408,7 @@ POST = {"chain": "chainpost"}
 # which cases of a shared stream are in the scope of a property (others are run but not judged)
 FILTERS = {
     ("C16", "chain"): lambda case: case.get("op") == "chain" and case.get("mutation") == "none",
-    ("C02", "chain"): lambda case: case.get("op") == "chain" and case.get("mutation") == "none",
+    ("C02", "chain"): lambda case: case.get("op") == "chain" and (case.get("mutation") == "none" or case.get("mutation", "").startswith("honest token")),
     ("C08", "chain"): lambda case: case.get("op") == "sealops" or (case.get("op") == "chain" and "seal" in (case["subject"].get("proof") or {}) and "ecdsa" not in case.get("mutation", "")),
     ("C01", "chain"): lambda case: case.get("op") == "chain",
     ("C07", "chain"): lambda case: case.get("op") in ("tpv", "tpu") or (case.get("op") == "chain" and "ecdsa" not in case.get("mutation", "") and ("external" in case.get("mutation", "") or any(b.get("ext") for b in case["subject"]["blocks"]))),
